@@ -8,6 +8,7 @@
 //! Nothing here depends on async-graphql.
 
 pub mod bfs;
+pub mod driver;
 pub mod explore;
 pub mod record;
 pub mod sched;
